@@ -35,19 +35,10 @@ LABELS = ["contiguous", "shuffled", "gaps", "large", "mixed"]
 FLUIDS = ["water", "water", "lgas", "hgas", "hydrogen", "methane"]
 
 
-_LIVE = {"obs": None}
-
-
 def worker_init(ctx):
     # transient time series: the balance monitor rides on every pipeflow of the series through hook H1
-    import pandapipes._verif as v
-
-    def sink(ev, p):
-        obs = _LIVE["obs"]
-        if obs is not None and ev == "exit" and p["exc"] is None:
-            mon_c01(p["net"], obs)
-            obs.count("transient_steps_monitored")
-    v.register(sink)
+    from pvmon.props.common import transient_init
+    transient_init()
 
 
 def gen_cases(tier, seed):
@@ -102,26 +93,12 @@ def make(case):
 
 def run_transient(case, obs):
     """A transient heat time series (the internal tables are re-used from step to step) with load profiles."""
-    import pandas as pd
-    from pandapower.control import ConstControl
-    from pandapower.timeseries import DFData
-    from pandapipes.timeseries import run_timeseries
-    rng = rng_for("C01t", case["seed"], case["i"])
-    spec = netgen.gen_thermal_mesh(rng, two_feeders=False, max_sections=2)
-    net = netgen.build(spec)
-    steps = int(rng.integers(3, 6))
-    if len(net.sink):
-        df = pd.DataFrame({int(i): rng.uniform(0.2, 1.5, steps) for i in net.sink.index})
-        ConstControl(net, "sink", "mdot_kg_per_s", list(net.sink.index), profile_name=list(df.columns), data_source=DFData(df))
-    _LIVE["obs"] = obs
-    try:
-        run_timeseries(net, time_steps=range(steps), mode=str(rng.choice(["sequential", "bidirectional"])), transient=True, dt=float(rng.choice([60, 300])),
-                       iter=100, verbose=False, use_numba=bool(rng.random() < 0.5), continue_on_divergence=True)
-        obs.count("transient_series")
-    except Exception as e:
-        obs.count("transient_series_raised_" + type(e).__name__)
-    finally:
-        _LIVE["obs"] = None
+    from pvmon.props.common import run_transient_series
+
+    def on_step(net):
+        mon_c01(net, obs)
+        obs.count("transient_steps_monitored")
+    spec, _ = run_transient_series(rng_for("C01t", case["seed"], case["i"]), obs, on_step)
     return spec
 
 
